@@ -485,6 +485,64 @@ def run_self(item: Tuple[int, ...]) -> Tuple[Optional[str], str]:
     return (problems[0] if problems else None), f"self:{'bad' if problems else 'ok'}"
 
 
+def repeat_points() -> List[Tuple[int, int]]:
+    return [(spacing, n) for spacing in (300, 600, 900, 999, 1000, 1200) for n in (2, 3, 4, 7)]
+
+
+def run_repeat(item: Tuple[int, int]) -> Tuple[Optional[str], str]:
+    """The same well-formed query, byte for byte, again and again (every querier uses message id 0, so a repeated question IS
+    the same datagram).  A copy that comes less than a second after the last one that was handled may be taken for a
+    duplicate; every other copy is a query like any other and is owed its answer."""
+    spacing, n = item
+    problems: List[str] = []
+    with World(rand=RandPolicy.const(0.0)) as w:
+        host, lst = busy_world(w)
+        w.advance(2600)
+        t0 = w.now_ms
+        n0 = len(w.net.trace)
+        q = wire.query([("Q", TA, 12, 1)], id_=0)
+        owed, last_handled = 0, None
+        for k in range(n):
+            t = t0 + k * spacing
+            w.advance_to_ms(t)
+            deliver(w, host, q, ("10.0.0.92", 5353))
+            if last_handled is None or t - last_handled >= 1000:
+                owed, last_handled = owed + 1, t
+        # ... and the same with an announcement (nothing of the host's own loops back in between): the cached record carries
+        # the arrival time of the last copy that was handled
+        ann = wire.response([("PTR", "_q._tcp.local.", 1, 4500, "again._q._tcp.local.")])  # (a type nobody browses: no traffic of the host in between)
+        t1 = w.now_ms + 1500
+        last_ann = None
+        for k in range(n):
+            t = t1 + k * spacing
+            w.advance_to_ms(t)
+            deliver(w, host, ann, ("10.0.0.91", 5353))
+            if last_ann is None or t - last_ann >= 1000:
+                last_ann = t
+        cached = [r for r in host.zc.cache.entries_with_name("_q._tcp.local.") if r.alias == "again._q._tcp.local."]
+        # (the host's own traffic - a browser refresh, a lookup retry - may fall between two copies and shift which copies count
+        # as repeats: the record must date from the last second before the copy that is owed by the rule at the latest)
+        if not cached or cached[0].created < last_ann - 1000:
+            problems.append(f"repeats: {n} copies of one announcement {spacing} ms apart; the copy at +{last_ann - t1:.0f} ms came at "
+                            f"least a second after the last one handled, the cached record dates from "
+                            f"+{(cached[0].created - t1) if cached else None} ms")
+        w.advance(3000)
+        got = 0
+        for s_ in w.net.trace[n0:]:
+            if s_.host == host.name and s_.multicast:
+                m = wire.decode(s_.data)
+                if m.flags & 0x8000 and any(r[0] == "PTR" and r[1].lower() == TA for r in m.answers):
+                    got += 1
+        if got < owed:
+            problems.append(f"repeats: {n} copies of one query {spacing} ms apart, {owed} of them at least a second after the "
+                            f"last one handled, but only {got} answers")
+        excs = w.exceptions()
+        if excs:
+            problems.append(f"exception: {excs[0][:300]}")
+        canary(w, host, lst, problems)
+    return (problems[0] if problems else None), f"repeat:{'bad' if problems else 'ok'}"
+
+
 def run_stream(item: Tuple[List[Tuple[str, bytes]], int]) -> Tuple[Optional[str], str]:
     """One busy world, a stream of datagrams with clock steps between them."""
     chunk, variant = item
@@ -570,6 +628,11 @@ def run(tier: str, seed: int) -> Tuple[Stats, str, List[str], Dict[str, Any]]:
         record(problem, oc, {"mode": "self", "item": list(item), "n": len(item),
                              "what": f"datagrams {list(item)} of the canary instance's own history (announce, goodbye, both in one)"})
     sizes["canary_history"] = len(sp)
+    rq = repeat_points()
+    for item, (problem, oc) in zip(rq, pmap_iter(guarded_problem(run_repeat), rq, chunk=4)):
+        record(problem, oc, {"mode": "repeat", "item": list(item), "n": item[1],
+                             "what": f"{item[1]} byte-identical copies of a valid query {item[0]} ms apart"})
+    sizes["repeats"] = len(rq)
     rp = reentrant_points()
     for item, (problem, oc) in zip(rp, pmap_iter(guarded_problem(run_reentrant), rp, chunk=8)):
         record(problem, oc, {"mode": "reentrant", "item": list(item), "n": 2,
@@ -613,6 +676,8 @@ def replay(data: Dict[str, Any]) -> int:
         problem, oc = run_cancel(tuple(data["item"]))
     elif data.get("mode") == "train":
         problem, oc = run_train(tuple(data["item"]))
+    elif data.get("mode") == "repeat":
+        problem, oc = run_repeat(tuple(data["item"]))
     elif data.get("mode") == "self":
         problem, oc = run_self(tuple(data["item"]))
     elif data.get("mode") == "reentrant":
